@@ -819,8 +819,9 @@ structure GenFacts (P : Params C D) (cfg : Cfg) (dr : Draws D) (g : Nat) (s s' :
       circuit as score -/
   seen : ∃ h1 pop1, mutatePhase P (dr.mutation g) 0 cfg.nPop s.heap s.pop = .ok (h1, pop1) ∧
     popRefs pop1 = popRefs s.pop ∧ (∀ e ∈ pop1, PopHonest P h1 e) ∧
+    (∀ r ∈ hofRefs s.hof, h1.get? r = s.heap.get? r) ∧ HofInv P cfg.tol h1 s.hof ∧
     ∃ h2, updateHof cfg.tol P.size cfg.nHof h1 s.hof pop1 = .ok (h2, s'.hof) ∧
-      (∀ r ∈ hofRefs s'.hof, r ∈ hofRefs s.hof ∨ s.heap.size ≤ r)
+      (∀ r ∈ hofRefs s'.hof, r ∈ hofRefs s.hof ∨ s.heap.size ≤ r) ∧ Ext h2 s'.heap
   /-- hall-of-fame objects that are kept are not touched by the generation -/
   kept : ∀ r ∈ hofRefs s.hof, s'.heap.get? r = s.heap.get? r
 
@@ -887,12 +888,12 @@ theorem generation_inv (P : Params C D) (cfg : Cfg) (dr : Draws D) (g : Nat) {s 
               simp only [Except.ok.injEq, Prod.mk.injEq] at htour
               obtain ⟨rfl, rfl⟩ := htour
               exact ⟨⟨hpop1len, u3, hpop1bound, by rw [m1]; exact hinv.popNodup, hdisj2, u1⟩,
-                ⟨⟨h1, pop1, hmut, m1, hpop1honest, h2, hupd, hfacts_refs⟩, hkept2⟩⟩
+                ⟨⟨h1, pop1, hmut, m1, hpop1honest, hagree, hhof1, h2, hupd, hfacts_refs, Ext.refl _⟩, hkept2⟩⟩
             · obtain ⟨t1, t2, t3, t4, t5, _⟩ := tournamentLoop_spec P pop1 (dr.tournament g) h2.size cfg.nPop 0 h2 []
                 (fun e he => (hpop1honest e he).ext u2) (Nat.le_refl _) (by simp) (by simp [popRefs])
                 (by simp [popRefs]) (by simp) htour
               refine ⟨⟨by simpa using t2, u3, ?_, t4, ?_, u1.ext t1⟩,
-                ⟨⟨h1, pop1, hmut, m1, hpop1honest, h2, hupd, hfacts_refs⟩, ?_⟩⟩
+                ⟨⟨h1, pop1, hmut, m1, hpop1honest, hagree, hhof1, h2, hupd, hfacts_refs, t1⟩, ?_⟩⟩
               · intro e he
                 exact (t5 e.circ (mem_popRefs.mpr ⟨e, he, rfl⟩)).2
               · intro r hr hm
@@ -908,7 +909,7 @@ theorem generation_inv (P : Params C D) (cfg : Cfg) (dr : Draws D) (g : Nat) {s 
         · simp only [Except.ok.injEq] at hres
           subst hres
           exact ⟨⟨hpop1len, u3, hpop1bound, by rw [m1]; exact hinv.popNodup, hdisj2, u1⟩,
-            ⟨⟨h1, pop1, hmut, m1, hpop1honest, h2, hupd, hfacts_refs⟩, hkept2⟩⟩
+            ⟨⟨h1, pop1, hmut, m1, hpop1honest, hagree, hhof1, h2, hupd, hfacts_refs, Ext.refl _⟩, hkept2⟩⟩
 
 /-- any number of generations keeps the invariant -/
 theorem generations_inv (P : Params C D) (cfg : Cfg) (dr : Draws D) :
@@ -1198,7 +1199,7 @@ theorem generation_head (P : Params C D) (cfg : Cfg) (dr : Draws D) (g : Nat) (S
       ∃ h1 pop1, mutatePhase P (dr.mutation g) 0 cfg.nPop s.heap s.pop = .ok (h1, pop1) ∧
         ∀ e ∈ pop1, ClsLe cfg.tol b.score e.score := by
   intro a b ha hb
-  obtain ⟨_, ⟨h1, pop1, hmut, _, hhon, h2, hupd, _⟩, _⟩ := generation_inv P cfg dr g hinv hres
+  obtain ⟨_, ⟨h1, pop1, hmut, _, hhon, _, _, h2, hupd, _, _⟩, _⟩ := generation_inv P cfg dr g hinv hres
   have hSp : ∀ e ∈ pop1, S e.score := by
     intro e he
     obtain ⟨c, _, hs⟩ := hhon e he
@@ -1672,5 +1673,420 @@ theorem generations_transProbs (P : Params C D) (cfg : Cfg) (dr : Draws D) :
       exact ⟨g1, g2.trans hd1.2⟩
 
 end ProbRun
+
+section Keep
+variable {C D : Type}
+
+/-- processing one member keeps the tolerance order (needs nothing about the heap) -/
+theorem updateHofOne_sorted (t : Tol) (size : C → Nat) (n : Nat) {h h' : Heap C} {hof hof' : List HofEntry}
+    {e : PopEntry} (hs : SortedTol t hof) (hres : updateHofOne t size n h hof e = .ok (h', hof')) :
+    SortedTol t hof' := by
+  unfold updateHofOne at hres
+  split at hres
+  · simp at hres
+  · next c hc =>
+    split at hres
+    · simp at hres
+    · simp only [Except.ok.injEq, Prod.mk.injEq] at hres
+      obtain ⟨rfl, rfl⟩ := hres
+      exact hs
+    · next p hscan =>
+      split at hres
+      · simp at hres
+      · next h2 r' hcopy =>
+        simp only [Except.ok.injEq, Prod.mk.injEq] at hres
+        obtain ⟨rfl, rfl⟩ := hres
+        obtain ⟨_, _, ⟨ep, hep, hhit⟩, hpassed⟩ := scanHof_some t size h hof e.score (size c) n 0 p hscan
+        have hplt : p < hof.length := (List.getElem?_eq_some_iff.mp hep).1
+        apply sortedTol_insertPop t hof p _ hplt hs
+        · intro e1 he1
+          rw [hep] at he1
+          have : e1 = ep := by simpa using he1.symm
+          subst this
+          exact hhit.leTol
+        · intro k e1 hk he1
+          obtain ⟨e2, he2, hp2'⟩ := hpassed k (Nat.zero_le _) (by omega)
+          rw [he1] at he2
+          have : e2 = e1 := by simpa using he2.symm
+          subst this
+          exact hp2'.leTol
+
+/-- a score is *kept*: an entry carries it, or the last (worst) entry is not above it -/
+def Kept (t : Tol) (hof : List HofEntry) (s : Score) : Prop :=
+  (∃ x ∈ hof, x.score = s) ∨ ∃ l, hof[hof.length - 1]? = some l ∧ ClsLe t l.score s
+
+theorem updateHofOne_kept (t : Tol) (S : Score → Prop) (hc : Coherent t S) (size : C → Nat) (n : Nat)
+    {h h' : Heap C} {hof hof' : List HofEntry} {e : PopEntry} (hlen : hof.length = n) (hn : 0 < n)
+    (hS : ∀ x ∈ hof, S x.score) (hSe : S e.score) (hs : SortedTol t hof)
+    (hres : updateHofOne t size n h hof e = .ok (h', hof')) :
+    Kept t hof' e.score ∧ ∀ s, S s → Kept t hof s → Kept t hof' s := by
+  unfold updateHofOne at hres
+  split at hres
+  · simp at hres
+  · next c hc' =>
+    split at hres
+    · simp at hres
+    · next hscan =>
+      simp only [Except.ok.injEq, Prod.mk.injEq] at hres
+      obtain ⟨rfl, rfl⟩ := hres
+      refine ⟨?_, fun s _ hk => hk⟩
+      obtain ⟨l, hl, hp⟩ := scanHof_none t size h hof e.score (size c) n 0 hscan (n - 1) (Nat.zero_le _) (by omega)
+      right
+      refine ⟨l, by rw [hlen]; exact hl, ?_⟩
+      have hSl : S l.score := hS l (List.mem_of_getElem? hl)
+      rcases hp with ⟨h1, _⟩ | ⟨_, h2⟩
+      · exact Or.inl (hc.symm _ _ hSe hSl h1)
+      · by_cases hle : l.score = e.score
+        · rw [hle]; exact ClsLe.refl hc hSe
+        · exact Or.inr (Score.lt_of_not_lt_of_ne h2 (fun h => hle h.symm))
+    · next p hscan =>
+      split at hres
+      · simp at hres
+      · next h2 r' hcopy =>
+        simp only [Except.ok.injEq, Prod.mk.injEq] at hres
+        obtain ⟨rfl, rfl⟩ := hres
+        obtain ⟨_, _, ⟨ep, hep, hhit⟩, _⟩ := scanHof_some t size h hof e.score (size c) n 0 p hscan
+        have hplt : p < hof.length := (List.getElem?_eq_some_iff.mp hep).1
+        have hlen' : (insertPop hof p ⟨e.score, some r'⟩).length = hof.length := insertPop_length hof p _ hplt
+        have hget := insertPop_getElem? hof p ⟨e.score, some r'⟩ hplt
+        -- the new entry is present
+        have hpres : (⟨e.score, some r'⟩ : HofEntry) ∈ insertPop hof p ⟨e.score, some r'⟩ := by
+          apply List.mem_of_getElem? (i := p)
+          rw [hget]; simp
+        refine ⟨Or.inl ⟨_, hpres, rfl⟩, ?_⟩
+        -- the old last entry and the new last entry
+        have hlast_old : hof[n - 1]? = some hof[n - 1] := List.getElem?_eq_getElem (by omega)
+        have hSlast : S (hof[n - 1]).score := hS _ (List.mem_of_getElem? hlast_old)
+        -- new last is not above old last
+        have hnewlast : ∃ l', (insertPop hof p ⟨e.score, some r'⟩)[n - 1]? = some l' ∧ S l'.score ∧
+            ClsLe t l'.score (hof[n - 1]).score := by
+          rw [hget]
+          by_cases hp1 : p = n - 1
+          · subst hp1
+            simp only [Nat.lt_irrefl, if_false, if_true]
+            refine ⟨_, rfl, hSe, ?_⟩
+            rw [hlast_old] at hep
+            have : ep = hof[n - 1] := by simpa using hep.symm
+            subst this
+            rcases hhit with ⟨h1, _⟩ | ⟨_, h2'⟩
+            · exact Or.inl h1
+            · exact Or.inr h2'
+          · have h1 : ¬ n - 1 < p := by omega
+            have h2' : ¬ n - 1 = p := by omega
+            have h3 : n - 1 < hof.length := by omega
+            simp only [h1, h2', h3, if_false, if_true]
+            have hm : hof[n - 1 - 1]? = some hof[n - 1 - 1] := List.getElem?_eq_getElem (by omega)
+            refine ⟨_, hm, hS _ (List.mem_of_getElem? hm), ?_⟩
+            have hadj : hof[n - 1 - 1 + 1]? = some hof[n - 1] := by
+              have : n - 1 - 1 + 1 = n - 1 := by omega
+              rw [this]; exact hlast_old
+            exact (hs (n - 1 - 1) _ _ hm hadj).clsLe hc (hS _ (List.mem_of_getElem? hm)) hSlast
+        obtain ⟨l', hl', hSl', hle'⟩ := hnewlast
+        intro s hSs hk
+        rcases hk with ⟨x, hx, hxs⟩ | ⟨l, hl, hls⟩
+        · -- x was present at some index i
+          obtain ⟨i, hi⟩ := List.mem_iff_getElem?.mp hx
+          have hilt : i < hof.length := (List.getElem?_eq_some_iff.mp hi).1
+          by_cases hip : i < p
+          · left
+            refine ⟨x, ?_, hxs⟩
+            apply List.mem_of_getElem? (i := i)
+            rw [hget]; simp [hip, hi]
+          · by_cases hin : i + 1 < hof.length
+            · left
+              refine ⟨x, ?_, hxs⟩
+              apply List.mem_of_getElem? (i := i + 1)
+              rw [hget]
+              have e1 : ¬ i + 1 < p := by omega
+              have e2 : ¬ i + 1 = p := by omega
+              simp [e1, e2, hin, hi]
+            · -- x was the last entry and is popped
+              have hi1 : i = n - 1 := by omega
+              subst hi1
+              rw [hlast_old] at hi
+              have : x = hof[n - 1] := by simpa using hi.symm
+              right
+              refine ⟨l', by rw [hlen', hlen]; exact hl', ?_⟩
+              rw [← hxs, this]; exact hle'
+        · right
+          refine ⟨l', by rw [hlen', hlen]; exact hl', ?_⟩
+          rw [hlen, hlast_old] at hl
+          have : l = hof[n - 1] := by simpa using hl.symm
+          subst this
+          exact ClsLe.trans hc hSl' hSlast hSs hle' hls
+
+/-- **The hall of fame keeps the best.**  After `update_hof(population)` with coherent scores, every population member's
+    score is carried by an entry, or the last (worst) entry is not above it: nothing strictly better than the worst
+    entry is ever dropped.  The same holds for every score that was kept before. -/
+theorem updateHof_kept (t : Tol) (S : Score → Prop) (hc : Coherent t S) (size : C → Nat) (n : Nat) (hn : 0 < n) :
+    ∀ (pop : List PopEntry) {h h' : Heap C} {hof hof' : List HofEntry},
+      hof.length = n → (∀ x ∈ hof, S x.score) → (∀ e ∈ pop, S e.score) → SortedTol t hof →
+      updateHof t size n h hof pop = .ok (h', hof') →
+      (∀ e ∈ pop, Kept t hof' e.score) ∧ ∀ s, S s → Kept t hof s → Kept t hof' s := by
+  intro pop
+  induction pop with
+  | nil =>
+    intro h h' hof hof' _ _ _ _ hres
+    simp only [updateHof, Except.ok.injEq, Prod.mk.injEq] at hres
+    obtain ⟨rfl, rfl⟩ := hres
+    exact ⟨by simp, fun s _ hk => hk⟩
+  | cons e rest ih =>
+    intro h h' hof hof' hlen hS hSp hs hres
+    simp only [updateHof] at hres
+    split at hres
+    · simp at hres
+    · next h1 hof1 hone =>
+      have hSe : S e.score := hSp e List.mem_cons_self
+      obtain ⟨l1, m1, _⟩ := updateHofOne_head t size n hlen hone
+      have hS1 : ∀ x ∈ hof1, S x.score := by
+        intro x hx
+        rcases m1 x hx with hm | hm
+        · exact hS x hm
+        · rw [hm]; exact hSe
+      obtain ⟨k1, k2⟩ := updateHofOne_kept t S hc size n hlen hn hS hSe hs hone
+      obtain ⟨g1, g2⟩ := ih (l1.trans hlen) hS1 (fun x hx => hSp x (List.mem_cons_of_mem _ hx))
+        (updateHofOne_sorted t size n hs hone) hres
+      refine ⟨?_, fun s hSs hk => g2 s hSs (k2 s hSs hk)⟩
+      intro x hx
+      rcases List.mem_cons.mp hx with rfl | hm
+      · exact g2 _ hSe k1
+      · exact g1 x hm
+
+end Keep
+
+section SizeTie
+variable {C D : Type}
+
+/-- neighbours with isclose scores are ordered by node count -/
+def SizeTie (t : Tol) (size : C → Nat) (h : Heap C) (hof : List HofEntry) : Prop :=
+  ∀ j a b ra rb ca cb, hof[j]? = some a → hof[j + 1]? = some b → a.score.isclose t b.score = true →
+    a.circ = some ra → b.circ = some rb → h.get? ra = some ca → h.get? rb = some cb → size ca ≤ size cb
+
+theorem SizeTie.of_agree {t : Tol} {size : C → Nat} {h h1 : Heap C} {hof : List HofEntry}
+    (hag : ∀ r ∈ hofRefs hof, h1.get? r = h.get? r) (hs : SizeTie t size h hof) : SizeTie t size h1 hof := by
+  intro j a b ra rb ca cb ha hb hcl hra hrb hca hcb
+  have h1' := hag ra (List.mem_filterMap.mpr ⟨a, List.mem_of_getElem? ha, hra⟩)
+  have h2' := hag rb (List.mem_filterMap.mpr ⟨b, List.mem_of_getElem? hb, hrb⟩)
+  exact hs j a b ra rb ca cb ha hb hcl hra hrb (by rw [← h1']; exact hca) (by rw [← h2']; exact hcb)
+
+theorem updateHofOne_sizeTie (t : Tol) (S : Score → Prop) (hc : Coherent t S) (size : C → Nat) (n : Nat)
+    {h h' : Heap C} {hof hof' : List HofEntry} {e : PopEntry}
+    (hS : ∀ x ∈ hof, S x.score) (hSe : S e.score) (hb : ∀ r ∈ hofRefs hof, r < h.size)
+    (hst : SizeTie t size h hof) (hres : updateHofOne t size n h hof e = .ok (h', hof')) :
+    SizeTie t size h' hof' := by
+  unfold updateHofOne at hres
+  split at hres
+  · simp at hres
+  · next c hc' =>
+    split at hres
+    · simp at hres
+    · simp only [Except.ok.injEq, Prod.mk.injEq] at hres
+      obtain ⟨rfl, rfl⟩ := hres
+      exact hst
+    · next p hscan =>
+      split at hres
+      · simp at hres
+      · next h2 r' hcopy =>
+        simp only [Except.ok.injEq, Prod.mk.injEq] at hres
+        obtain ⟨rfl, rfl⟩ := hres
+        obtain ⟨_, _, ⟨ep, hep, hhit⟩, hpassed⟩ := scanHof_some t size h hof e.score (size c) n 0 p hscan
+        have hplt : p < hof.length := (List.getElem?_eq_some_iff.mp hep).1
+        obtain ⟨hr', hsz, hold, hnew, _⟩ := Heap.copy_spec hcopy
+        have hget := insertPop_getElem? hof p ⟨e.score, some r'⟩ hplt
+        -- an old entry's object is old
+        have oldref : ∀ (x : HofEntry) (i : Nat) (r : Nat) (cx : C), hof[i]? = some x → x.circ = some r →
+            h2.get? r = some cx → h.get? r = some cx := by
+          intro x i r cx hx hr hcx
+          have := hb r (List.mem_filterMap.mpr ⟨x, List.mem_of_getElem? hx, hr⟩)
+          rw [← hold r this]; exact hcx
+        have newcell : h2.get? r' = some c := by rw [hnew]; exact hc'
+        intro j a b ra rb ca cb ha hb' hcl hra hrb hca hcb
+        rw [hget] at ha hb'
+        by_cases h1 : j + 1 < p
+        · have hj : j < p := by omega
+          simp only [hj, h1, if_true] at ha hb'
+          exact hst j a b ra rb ca cb ha hb' hcl hra hrb (oldref a j ra ca ha hra hca) (oldref b (j + 1) rb cb hb' hrb hcb)
+        · by_cases h2' : j + 1 = p
+          · have hj : j < p := by omega
+            have hne : ¬ j + 1 < p := by omega
+            simp only [hj, hne, h2', if_true, if_false] at ha hb'
+            have hbx : b = ⟨e.score, some r'⟩ := by simpa using hb'.symm
+            subst hbx
+            simp only [Option.some.injEq] at hrb
+            subst hrb
+            rw [newcell] at hcb
+            have : cb = c := by simpa using hcb.symm
+            subst this
+            obtain ⟨e2, he2, hp2⟩ := hpassed j (Nat.zero_le _) (by omega)
+            rw [ha] at he2
+            have : e2 = a := by simpa using he2.symm
+            subst this
+            rcases hp2 with ⟨_, r0, hc0, hr0, hg0, hnlt⟩ | ⟨hncl, _⟩
+            · rw [hra] at hr0
+              have : r0 = ra := by simpa using hr0.symm
+              subst this
+              have := oldref e2 j r0 ca ha hra hca
+              rw [hg0] at this
+              have : hc0 = ca := by simpa using this
+              subst this
+              omega
+            · have := hc.symm _ _ (hS e2 (List.mem_of_getElem? ha)) hSe hcl
+              rw [this] at hncl; simp at hncl
+          · by_cases h3 : j = p
+            · subst h3
+              have e1 : ¬ j < j := by omega
+              have e2 : ¬ j + 1 < j := by omega
+              have e3 : ¬ j + 1 = j := by omega
+              simp only [e1, e2, e3, if_true, if_false] at ha hb'
+              have hax : a = ⟨e.score, some r'⟩ := by simpa using ha.symm
+              subst hax
+              simp only [Option.some.injEq] at hra
+              subst hra
+              rw [newcell] at hca
+              have : ca = c := by simpa using hca.symm
+              subst this
+              split at hb'
+              · simp only [Nat.add_sub_cancel] at hb'
+                rw [hep] at hb'
+                have : b = ep := by simpa using hb'.symm
+                subst this
+                rcases hhit with ⟨_, r0, hc0, hr0, hg0, hlt⟩ | ⟨hncl, _⟩
+                · rw [hrb] at hr0
+                  have : r0 = rb := by simpa using hr0.symm
+                  subst this
+                  have := oldref b j r0 cb hep hrb hcb
+                  rw [hg0] at this
+                  have : hc0 = cb := by simpa using this
+                  subst this
+                  omega
+                · simp only at hcl
+                  rw [hcl] at hncl; simp at hncl
+              · simp at hb'
+            · have e1 : ¬ j < p := by omega
+              have e2 : ¬ j + 1 < p := by omega
+              have e3 : ¬ j + 1 = p := by omega
+              simp only [e1, e2, e3, h3, if_false] at ha hb'
+              split at ha
+              · split at hb'
+                · have hidx : j - 1 + 1 = j + 1 - 1 := by omega
+                  have hb'' : hof[j - 1 + 1]? = some b := by rw [hidx]; exact hb'
+                  exact hst (j - 1) a b ra rb ca cb ha hb'' hcl hra hrb
+                    (oldref a (j - 1) ra ca ha hra hca) (oldref b (j - 1 + 1) rb cb hb'' hrb hcb)
+                · simp at hb'
+              · simp at ha
+
+end SizeTie
+
+section KeepRun
+variable {C D : Type}
+
+/-- `update_hof(population)` keeps the node-count order inside isclose classes (coherent scores) -/
+theorem updateHof_sizeTie (P : Params C D) (t : Tol) (S : Score → Prop) (hc : Coherent t S) (n : Nat) :
+    ∀ (pop : List PopEntry) {h h' : Heap C} {hof hof' : List HofEntry},
+      HofInv P t h hof → hof.length = n → (∀ e ∈ pop, PopHonest P h e) →
+      (∀ x ∈ hof, S x.score) → (∀ e ∈ pop, S e.score) → SizeTie t P.size h hof →
+      updateHof t P.size n h hof pop = .ok (h', hof') → SizeTie t P.size h' hof' := by
+  intro pop
+  induction pop with
+  | nil =>
+    intro h h' hof hof' _ _ _ _ _ hst hres
+    simp only [updateHof, Except.ok.injEq, Prod.mk.injEq] at hres
+    obtain ⟨rfl, rfl⟩ := hres
+    exact hst
+  | cons e rest ih =>
+    intro h h' hof hof' hinv hlen hpop hS hSp hst hres
+    simp only [updateHof] at hres
+    split at hres
+    · simp at hres
+    · next h1 hof1 hone =>
+      have hSe : S e.score := hSp e List.mem_cons_self
+      obtain ⟨hinv1, hext1, hlen1, _, _⟩ := updateHofOne_inv P t n hinv hlen (hpop e List.mem_cons_self) hone
+      obtain ⟨_, m1, _⟩ := updateHofOne_head t P.size n hlen hone
+      have hS1 : ∀ x ∈ hof1, S x.score := by
+        intro x hx
+        rcases m1 x hx with hm | hm
+        · exact hS x hm
+        · rw [hm]; exact hSe
+      have hst1 := updateHofOne_sizeTie t S hc P.size n hS hSe hinv.bound hst hone
+      exact ih hinv1 (hlen1.trans hlen) (fun x hx => (hpop x (List.mem_cons_of_mem _ hx)).ext hext1) hS1
+        (fun x hx => hSp x (List.mem_cons_of_mem _ hx)) hst1 hres
+
+theorem SizeTie.ext {t : Tol} {size : C → Nat} {h h1 : Heap C} {hof : List HofEntry} (hx : Ext h h1)
+    (hb : ∀ r ∈ hofRefs hof, r < h.size) (hs : SizeTie t size h hof) : SizeTie t size h1 hof :=
+  SizeTie.of_agree (fun r hr => hx.2 r (hb r hr)) hs
+
+/-- one generation keeps the node-count order inside isclose classes -/
+theorem generation_sizeTie (P : Params C D) (cfg : Cfg) (dr : Draws D) (g : Nat) (S : Score → Prop)
+    (hc : Coherent cfg.tol S) (hm : ∀ c, S (P.metric c)) (hinf : S Score.inf) {s s' : St C}
+    (hinv : Inv P cfg s) (hst : SizeTie cfg.tol P.size s.heap s.hof) (hres : generation P cfg dr g s = .ok s') :
+    SizeTie cfg.tol P.size s'.heap s'.hof := by
+  obtain ⟨hinv', ⟨h1, pop1, _, _, hhon, hag, hhof1, h2, hupd, _, hext⟩, _⟩ := generation_inv P cfg dr g hinv hres
+  have hSp : ∀ e ∈ pop1, S e.score := by
+    intro e he
+    obtain ⟨c, _, hs⟩ := hhon e he
+    rw [hs]; exact hm c
+  have hst1 : SizeTie cfg.tol P.size h1 s.hof := SizeTie.of_agree hag hst
+  have hst2 := updateHof_sizeTie P cfg.tol S hc cfg.nHof pop1 hhof1 hinv.hofLen hhon
+    (hinv.hof_scores S hm hinf) hSp hst1 hupd
+  have hinv2 := (updateHof_inv P cfg.tol cfg.nHof pop1 hhof1 hinv.hofLen hhon hupd).1
+  exact SizeTie.ext hext hinv2.bound hst2
+
+theorem generations_sizeTie (P : Params C D) (cfg : Cfg) (dr : Draws D) (S : Score → Prop)
+    (hc : Coherent cfg.tol S) (hm : ∀ c, S (P.metric c)) (hinf : S Score.inf) :
+    ∀ (fuel g : Nat) {s s' : St C}, Inv P cfg s → SizeTie cfg.tol P.size s.heap s.hof →
+      generations P cfg dr g fuel s = .ok s' → SizeTie cfg.tol P.size s'.heap s'.hof := by
+  intro fuel
+  induction fuel with
+  | zero => intro g s s' _ hst hres; simp [generations] at hres; subst hres; exact hst
+  | succ fuel ih =>
+    intro g s s' hinv hst hres
+    simp only [generations] at hres
+    split at hres
+    · simp at hres
+    · next s1 hs1 =>
+      exact ih (g + 1) (generation_inv P cfg dr g hinv hs1).1
+        (generation_sizeTie P cfg dr g S hc hm hinf hinv hst hs1) hres
+
+theorem initState_sizeTie (P : Params C D) (cfg : Cfg) (tp : TransProbs) (init : List C) :
+    SizeTie cfg.tol P.size (initState cfg tp init).heap (initState cfg tp init).hof := by
+  intro j a b ra rb ca cb ha _ _ hra _ _ _
+  simp only [initState, List.getElem?_replicate] at ha
+  split at ha <;> simp at ha
+  subst ha
+  simp at hra
+
+/-- one generation keeps every previously kept score and keeps every score it evaluates (coherent scores) -/
+theorem generation_kept (P : Params C D) (cfg : Cfg) (dr : Draws D) (g : Nat) (S : Score → Prop)
+    (hc : Coherent cfg.tol S) (hm : ∀ c, S (P.metric c)) (hinf : S Score.inf) (hn : 0 < cfg.nHof) {s s' : St C}
+    (hinv : Inv P cfg s) (hres : generation P cfg dr g s = .ok s') :
+    (∃ h1 pop1, mutatePhase P (dr.mutation g) 0 cfg.nPop s.heap s.pop = .ok (h1, pop1) ∧
+      ∀ e ∈ pop1, Kept cfg.tol s'.hof e.score) ∧
+    ∀ sc, S sc → Kept cfg.tol s.hof sc → Kept cfg.tol s'.hof sc := by
+  obtain ⟨_, ⟨h1, pop1, hmut, _, hhon, _, _, h2, hupd, _, _⟩, _⟩ := generation_inv P cfg dr g hinv hres
+  have hSp : ∀ e ∈ pop1, S e.score := by
+    intro e he
+    obtain ⟨c, _, hs⟩ := hhon e he
+    rw [hs]; exact hm c
+  obtain ⟨k1, k2⟩ := updateHof_kept cfg.tol S hc P.size cfg.nHof hn pop1 hinv.hofLen
+    (hinv.hof_scores S hm hinf) hSp hinv.hof.sorted hupd
+  exact ⟨⟨h1, pop1, hmut, k1⟩, k2⟩
+
+theorem generations_kept (P : Params C D) (cfg : Cfg) (dr : Draws D) (S : Score → Prop)
+    (hc : Coherent cfg.tol S) (hm : ∀ c, S (P.metric c)) (hinf : S Score.inf) (hn : 0 < cfg.nHof) :
+    ∀ (fuel g : Nat) {s s' : St C}, Inv P cfg s → generations P cfg dr g fuel s = .ok s' →
+      ∀ sc, S sc → Kept cfg.tol s.hof sc → Kept cfg.tol s'.hof sc := by
+  intro fuel
+  induction fuel with
+  | zero => intro g s s' _ hres sc _ hk; simp [generations] at hres; subst hres; exact hk
+  | succ fuel ih =>
+    intro g s s' hinv hres sc hSs hk
+    simp only [generations] at hres
+    split at hres
+    · simp at hres
+    · next s1 hs1 =>
+      exact ih (g + 1) (generation_inv P cfg dr g hinv hs1).1 hres sc hSs
+        ((generation_kept P cfg dr g S hc hm hinf hn hinv hs1).2 sc hSs hk)
+
+end KeepRun
 
 end Graphiq.Evo
